@@ -249,6 +249,8 @@ def gen_modules_used(mod):
         for t in targets:
             graph.setdefault(t, set()).update(deps)
     roots = [mod.CHECK_MODULE.replace(".", "/") + ".vo", mod.PROPS_FILE[:-2] + ".vo"]
+    if getattr(mod, "TIE_FILE", None):
+        roots.append(mod.TIE_FILE[:-2] + ".vo")
     if not all(r in graph for r in roots):
         return None
     seen, todo = set(), list(roots)
@@ -279,9 +281,9 @@ def vo_ok(rel_v):
 THEOREM_RE = re.compile(r"^\s*(Theorem|Corollary)\s+([A-Za-z0-9_']+)", re.M)
 
 
-def check_props(mod, scratch):
-    """Re-run coqc on Props/Cxx.v.  Returns dict(obligations, discharged, axioms, error)."""
-    rel = mod.PROPS_FILE
+def check_props(mod, scratch, rel=None):
+    """Re-run coqc on Props/Cxx.v (or another theorem file).  Returns dict(obligations, discharged, axioms, error)."""
+    rel = rel or mod.PROPS_FILE
     path = os.path.join(COQ, rel)
     text = open(path, encoding="utf-8").read()
     names = [m.group(2) for m in THEOREM_RE.finditer(strip_coq_comments(text))]
@@ -321,9 +323,12 @@ def check_props(mod, scratch):
 
 def run_coqchk(mod):
     """Thorough tier: independent re-check of the property's .vo and everything it depends on."""
-    name = "Verif." + mod.PROPS_FILE[:-2].replace("/", ".")
+    names = ["Verif." + mod.PROPS_FILE[:-2].replace("/", ".")]
+    if getattr(mod, "TIE_FILE", None) and vo_ok(mod.TIE_FILE):
+        names.append("Verif." + mod.TIE_FILE[:-2].replace("/", "."))
     t0 = time.time()
-    rc, out, err = run(["coqchk", "-silent", "-o", "-Q", COQ, "Verif", name], timeout=1500)
+    rc, out, err = run(["coqchk", "-silent", "-o", "-Q", COQ, "Verif"] + names, timeout=1500)
+    name = " ".join(names)
     res = {"cmd": "coqchk -silent -o -Q coq Verif %s" % name, "rc": rc, "wall_s": round(time.time() - t0, 1)}
     txt = out + err
     m = re.search(r"\* Axioms:(.*?)\n\s*\n\* Constants/Inductives relying on type-in-type:(.*?)\n\s*\n"
@@ -603,6 +608,20 @@ def check(prop_id, tier, seed):
         if props["error"]:
             tie_broken.append({"what": "theorem no longer checks", "file": props.get("file"),
                                "detail": props["error"][-1500:]})
+        # tie by regeneration (DESIGN §3.1b): theorems that the functions regenerated from the source
+        # (coq/Gen/Tr*.v, harness/py2coq.py) equal the model functions on all inputs
+        tie = None
+        if getattr(mod, "TIE_FILE", None):
+            tie = check_props(mod, scratch, mod.TIE_FILE) if built or vo_ok(check_v) else {
+                "obligations": 1, "discharged": 0, "axioms": [], "error": "build failed", "theorems": [],
+                "file": "coq/" + mod.TIE_FILE, "checker_cmd": "make -C coq"}
+            if any(t.get("what") == "translator" for t in tie_broken):
+                tie["discharged"] = 0
+                tie["error"] = tie["error"] or "the translator failed closed on the current source; the compiled tie is about a stale file"
+            elif tie["error"]:
+                tie_broken.append({"what": "tie theorem (regenerated source = model) no longer checks",
+                                   "file": tie.get("file"),
+                                   "detail": tie["error"][-1500:] + "\n--- build log ---\n" + log.get("build_error", "")[-1500:]})
         chk = None
         if tier == "thorough" and not props["error"] and vo_ok(mod.PROPS_FILE):
             chk = run_coqchk(mod)
@@ -735,7 +754,13 @@ def check(prop_id, tier, seed):
         step = max(1, len(items) // 4)
         for c, o in items[::step][:5]:
             samples.append({"case": jsonable(c), "observed": jsonable(o)})
-        trusted = [
+        all_axioms = sorted(set(props["axioms"]) | set(tie["axioms"] if tie else []))
+        props = dict(props, axioms=all_axioms)
+        trusted = ([
+            "harness/py2coq.py: translator of the Python subset (statements, loops on fuel, exceptions as result) "
+            "that regenerates coq/Gen/Tr*.v from the source; its rendering of each Python construct and the "
+            "variable types given in the spec are trusted, the primitives it calls (regex leaves, int()) are "
+            "hand-written and compared with the live objects by the correspondence"] if tie else []) + [
             "Coq 8.16.1 kernel (coqc, full .vo build; vm_compute used for Examples and case evaluation; no native_compute)",
             "Print Assumptions for the %d theorems of %s: %s" % (
                 props["obligations"], props.get("file"),
@@ -743,10 +768,14 @@ def check(prop_id, tier, seed):
             "harness/extract.py translator for coq/Gen (character tables from the running interpreter; constants from the source AST)",
             "correspondence harness: generators, implementation driver, escaped-literal encoder (harness/extract.py coq_string) and decoder (coq/Lib/Dec.v dec); no extraction, no Extract directives",
         ] + list(getattr(mod, "TRUSTED", []))
+        if tie:
+            trusted[2] = trusted[2].replace("theorems of %s" % props.get("file"),
+                                            "theorems of %s and %s" % (props.get("file"), tie.get("file")))
         ev = {
             "property_id": mod.ID, "tier": tier, "seed": seed, "level": "proof",
             "coverage": {
-                "obligations": props["obligations"], "discharged": props["discharged"],
+                "obligations": props["obligations"] + (tie["obligations"] if tie else 0),
+                "discharged": props["discharged"] + (tie["discharged"] if tie else 0),
                 "checker_cmd": props["checker_cmd"],
                 "trusted_base": trusted,
                 "theorems": props.get("theorems", []),
@@ -765,6 +794,10 @@ def check(prop_id, tier, seed):
                 "deep_budget": deep,
                 "gen_changed": log.get("gen_changed", []),
                 "tie_broken": tie_broken,
+                "tie_by_regeneration": None if tie is None else {
+                    "file": tie.get("file"), "theorems": tie.get("theorems", []), "obligations": tie["obligations"],
+                    "discharged": tie["discharged"], "axioms": tie["axioms"], "error": tie["error"],
+                    "translator": "harness/py2coq.py -> coq/Gen (regenerated from the working tree on this run)"},
                 "coqchk": chk,
                 "spec_validation": spec_val,
                 "known_findings_seen": known_lines,
@@ -785,6 +818,9 @@ def check(prop_id, tier, seed):
         print(line)
     for path, suffix in violations:
         print("VIOLATION property=%s replay=%s%s" % (mod.ID, path, suffix))
+    if tie:
+        props = dict(props, discharged=props["discharged"] + tie["discharged"],
+                     obligations=props["obligations"] + tie["obligations"])
     print("%s %s: theorems %d/%d, cases %d (nontrivial %d), agree-fail %d, holds-fail %d, %.1fs%s"
           % (mod.ID, tier, props["discharged"], props["obligations"], len(items), len(nontriv),
              len(agree_bad), len(holds_bad), time.time() - t0,
